@@ -434,6 +434,16 @@ class Engine:
             return None
         parent = self.prog.fn_opt(norm_name(fn.iparent))
         if parent is None:
+            # the closure was written in a helper that is analysed inlined: it is created in the body of a function the
+            # helper was inlined into (the first one that contains the creation site)
+            for host, helpers in sorted(getattr(self.prog, "adopted", {}).items()):
+                if norm_name(fn.iparent) in helpers:
+                    h = self.prog.fn_opt(host)
+                    if h is not None and any(st_["rv"]["k"] == "agg" and st_["rv"].get("clo") and norm_name(st_["rv"]["clo"]) == fn.norm
+                                             for _b, _s, st_ in h.all_rvalues()):
+                        parent = h
+                        break
+        if parent is None:
             return None
         # creation site in the parent
         site = None
@@ -1231,6 +1241,43 @@ def _key_variants(key):
     return out
 
 
+def _adopted_closure_variants(eng, s):
+    """a closure written in a helper that is analysed inlined belongs to the functions the helper was inlined into: its
+    sites are also looked up under `<that function>::{closure}`"""
+    if eng is None or s.fn.kind != "closure" or not s.fn.parent:
+        return []
+    par = norm_name(s.fn.parent)
+    out = []
+    for host, helpers in getattr(eng.prog, "adopted", {}).items():
+        if par in helpers:
+            rest = s.key.partition("|")[2]
+            out.append("%s::{closure}|%s" % (host, rest))
+            out.append("%s|%s" % (host, rest))
+    return out
+
+
+def _moved_site_matches(s, pat):
+    """a site inside a helper that is analysed inlined (kq/inline.py: code that a later change moved out of, or between,
+    reviewed functions) keeps the reviewed invariant of the operation it is: the entry of a function of the *same impl /
+    module* applies when kind and operand shape match. Only for inlined code - a site in a reviewed function is matched by
+    its own function's entries only."""
+    import fnmatch
+    fn = s.fn
+    try:
+        moved = fn.origin(s.bb) != fn.norm
+    except Exception:
+        moved = False
+    if not moved or "|" not in pat:
+        return False
+    pfn, _, prest = pat.partition("|")
+    rest = s.key.partition("|")[2]
+    if not fnmatch.fnmatchcase(rest, prest):
+        return False
+    # the entry's function must live in the same impl / module as the host of the moved code
+    scope = pfn.lstrip("*").split("::{closure}")[0].rsplit("::", 1)[0].lstrip("*")
+    return bool(scope) and scope in fn.norm
+
+
 def _finish(res, sites, table, what, eng=None):
     import fnmatch
     from rules.panic_tables import REQUIRE
@@ -1238,7 +1285,7 @@ def _finish(res, sites, table, what, eng=None):
     for s in sites:
         if s.status == "no":
             for (pat, reason) in table:
-                if any(fnmatch.fnmatchcase(k_, pat) for k_ in _key_variants(s.key)):
+                if any(fnmatch.fnmatchcase(k_, pat) for k_ in _key_variants(s.key) + _adopted_closure_variants(eng, s)) or _moved_site_matches(s, pat):
                     used.add(pat)
                     tag = REQUIRE.get(pat)
                     if tag and eng is not None:
